@@ -2,7 +2,7 @@
    aggregate of up to 100 rows of doubles has numerators of thousands of bits. *)
 From Coq Require Import List ZArith QArith Qcanon Extraction ExtrOcamlBasic ExtrOcamlZBigInt.
 From LN Require C01Q_Defs.
-From LN Require Import C03_Defs.
+From LN Require Import C03_Defs C03_Loops_Defs.
 From LNGen Require Import Src_c03.
 Extraction Language OCaml.
 (* the n-D ellipsoid step runs over the canonical rationals Qc (Qred after every operation): Z.ggcd is mapped to
@@ -16,7 +16,16 @@ Extraction "extracted/c03_model.ml" dot vsub vadd vscale norm2 qsum smeared_e sm
   src_c03_ilast_store src_c03_ilast_append src_c03_solve1 src_c03_solve2 src_c03_cs_converged src_c03_rqb_iter_ok
   src_c03_rqb_converged src_c03_fpba_iter_ok src_c03_fpba_converged src_c03_ell_1d src_c03_done_step_ok
   src_c03_done_stop src_c03_done_status
-  Qred Qplus Qminus Qmult Qdiv Qopp Qle_bool Qeq_bool inject_Z.
+  Qred Qplus Qminus Qmult Qdiv Qopp Qle_bool Qeq_bool inject_Z
+  (* stage LOOP (C03_Loops_Defs.v): curve search, outer loops on the tape of recorded answers, proximity, Nesterov *)
+  cs_pass new_trial cs_move cs_m1_test cs_m2_test cs_m3_test cs_m4_test better is_better cs_search rqb_iter fpba_iter rqb_run fpba_run
+  tape_ask tape_search tape_rqb_iter tape_fpba_iter tape_rqb tape_fpba dummy_ans
+  qclamp prox_miu0 make_miu prox_update1 prox_update2 prox_candidates prox_nu omin
+  nest_next nest_alpha nest_beta nest_point nest_update nest_reset nest_step
+  src_c03_cs_budget src_c03_cs_failed src_c03_cs_descent src_c03_cs_null src_c03_cs_dstep src_c03_cs_cstep src_c03_cs_interp
+  src_c03_cs_descent_moves src_c03_cs_else_moves src_c03_cs_st_failed src_c03_cs_st_converged src_c03_cs_st_null
+  src_c03_cs_st_descent src_c03_cs_st_cutting src_c03_cs_st_init cs_reset tape_rqb_prefix src_c03_rqb_budget src_c03_rqb_is_descent src_c03_rqb_is_cutting src_c03_rqb_is_null
+  src_c03_fpba_budget src_c03_fpba_is_descent src_c03_fpba_is_cutting src_c03_fpba_is_null.
 (* the n-D deep-cut step goes to a module of its own: its vectors / matrices are those of C01Q_Defs, whose names (dot,
    vsub, ...) would otherwise be renamed against the ones above *)
 Extraction "extracted/c03e_model.ml" en_gHg en_alpha en_x en_H en_delta en_k en_P en_best en_step en_run en_H0 en_P0
